@@ -173,6 +173,7 @@ namespace
                     bool is = !m.empty && a.type() == typeid(T);
                     if ((p != nullptr) != is) this->viol("invariant", "any_cast", who + "any_cast<" + tnames[decltype(K)::value] + ">(&a) " + (p ? "succeeded" : "failed") + " although type() says otherwise");
                     if (p) { ++matches; m.type = decltype(K)::value; m.id = TypeOf<decltype(K)::value>::id(*p); }
+                    if (p && !placed(*p)) this->viol("lifetime", "relocated", who + "the contained object was not constructed where it now lives (bytes moved without a constructor)");
                 });
             if (!m.empty && matches != 1) viol("invariant", "type", who + "a non-empty any matches " + std::to_string(matches) + " of the stored types");
             return m;
